@@ -770,6 +770,10 @@ func (e *Evaluator) createSpeculativeObjects(specObj *Cell) (*Cell, error) {
 		}
 
 		newParent.Value = newObj
+		// the cell that stood for the missing parent now refers to it too. that
+		// cell can outlive this assignment, e.g. bound by a match pattern or
+		// returned from a function, and must not create the parent a second time
+		*parent = newObj
 		objToSet = &newParent.Value
 	} else {
 		objToSet = parent
